@@ -87,6 +87,20 @@ def gen_family_pairs(rnd: random.Random, n: int) -> list[tuple[str, str]]:
     return out
 
 
+def wildcard_edge_unions() -> list[str]:
+    """two-range unions around one release series with every combination of end flags and plain / first-dev ends — the shapes
+    next to the one the printer spells `!=X.*` (`<X.dev0 || >=next.dev0`)"""
+    out = []
+    for a, b in (("1.2", "1.3"), ("1", "2"), ("2.0", "2.1"), ("1.0.post1", "1.0.post2"), ("1!1.2", "1!1.3")):
+        for lo in ("<" + a, "<=" + a, "<" + a + ".dev0", "<=" + a + ".dev0"):
+            for hi in (">" + b, ">=" + b, ">" + b + ".dev0", ">=" + b + ".dev0"):
+                out.append(f"{lo} || {hi}")
+        for lo in (">=" + a, ">" + a, ">=" + a + ".dev0", ">" + a + ".dev0"):
+            for hi in ("<" + b, "<=" + b, "<" + b + ".dev0", "<=" + b + ".dev0"):
+                out.append(f"{lo},{hi}")
+    return out
+
+
 PROBE_BASES = ["0.0.1", "0.5", "1.1", "1.5", "1.2.5", "2.5", "3.5", "4", "0.0.0.1", "1.0.1", "1.2.3.1", "1.3", "2.1", "0", "1", "1.0", "1.2", "1.2.3", "2", "3"]
 PROBE_SUF = ["", ".dev1", "a2", ".post3", "+loc", ".post2+x.1", "rc1.dev1", ".dev0", "a0", ".post0"]
 
